@@ -32,6 +32,7 @@ type sessAn struct {
 	cut        bool // no longer used for cutting: kept false
 	closing    bool // the X line has been written: from here on only emissions are recorded (S lines) and only content equality is judged
 	xAt        int  // index in lines of the X line (-1: none yet)
+	closeSeen  [2]bool // side has emitted a close request / response of its own: its session object is gone
 	emits      [2]int             // number of S lines per side
 	wN         [2]int             // bytes written by side
 	rN         [2]int             // bytes read by side (of the other side's data)
@@ -181,7 +182,14 @@ func analyse(r *vh.Run, res *schedResult) schedSummary {
 						side, m.Proto, m.Seq, un, e.ID, a.prefix[side])
 				}
 			}
-			if sequenced(m.Proto) {
+			// once an endpoint has emitted its own close segment, a late datagram of the peer for this session id is answered by
+			// the underlay ("session is not registered") with a stateless closeSessionRequest whose sequence field echoes the
+			// peer's unAckSeq: not a sequence number assigned by a session, not judged (same exemption as UdpProto.late_step)
+			stateless := a.closing && m.Proto == 4 && a.closeSeen[side]
+			if m.Proto == 4 || m.Proto == 5 {
+				a.closeSeen[side] = true
+			}
+			if sequenced(m.Proto) && !stateless {
 				ti := txInfo{sum: sha256.Sum256(seg.Payload), proto: m.Proto, frag: frag}
 				if old, ok := a.tx[side][m.Seq]; ok {
 					a.retx++
@@ -234,7 +242,11 @@ func analyse(r *vh.Run, res *schedResult) schedSummary {
 		complete := counts && a.fails["bytes-differ"] == ""
 		s.mu.Lock()
 		errs := append([]string(nil), s.errs...)
+		stallMsg := s.stallMsg
 		s.mu.Unlock()
+		if stallMsg != "" {
+			a.failf("stalled", "%s while another session of the same underlay was not being read; read c<-s %d/%d, s<-c %d/%d", stallMsg, a.rN[0], len(s.data[1]), a.rN[1], len(s.data[0]))
+		}
 		if complete && len(errs) == 0 {
 			// the completion claim stands at the moment of Close (the acceptor ignores everything but emissions afterwards)
 			if a.xAt >= 0 {
